@@ -9,6 +9,6 @@ if git diff --quiet; then echo "MUTATION DID NOT APPLY"; exit 3; fi
 git --no-pager diff -U0 | grep '^[+-]' | grep -v '^+++\|^---'
 cd /verif && cp "evidence/$prop.json" "/verif/build/evidence-$prop.keep" 2>/dev/null; python3 tools/check.py "$prop" --tier quick --budget "$budget" | grep -v '^ *$' | tail -6
 rc=${PIPESTATUS[0]}
-git -C /repo checkout -- .
+git -C /repo checkout -- . ; git -C /repo clean -fdq src
 cp "/verif/build/evidence-$prop.keep" "evidence/$prop.json" 2>/dev/null
 echo "rc=$rc"
